@@ -86,8 +86,10 @@ def table_cases():
     for group in TIT:
         for pos in ("N", "M", "C"):
             for ff in ffmodel.FFS:
-                for side in ("below", "above", "equal"):
+                for side in ("below", "above", "equal", "just-below", "just-above"):
                     for ctx in (0, 1, 2):
+                        if side.startswith("just") and (ctx + len(group) + len(pos)) % 2:
+                            continue  # the two near-pKa sides on half of the contexts
                         out.append(dict(part="table", group=group, pos=pos, ff=ff, side=side, ctx=ctx))
     return out
 
@@ -172,8 +174,10 @@ def check_table(case):
     desc = dict(chains=[ch], waters=[])
     idx = ch["seq"].index(group) if pos != "C" else len(ch["seq"]) - 1
     key = ("A", ch["start"] + idx)
-    pka = {key: 6.25 + 0.5 * case["ctx"]}
-    ph = {"below": pka[key] - 1.5, "above": pka[key] + 1.5, "equal": pka[key]}[side]
+    # pKa values with more digits than any summary prints: the decision is made on the full value
+    pka = {key: [6.254, 6.756, 7.2537][case["ctx"]]}
+    ph = {"below": pka[key] - 1.5, "above": pka[key] + 1.5, "equal": pka[key],
+          "just-below": round(pka[key] - 0.002, 4), "just-above": round(pka[key] + 0.002, 4)}[side]
     s0, r0 = e2e.run_case(desc, ff, ["--keep-chain"])
     res.label(f"ff={ff}", f"group={group}", f"pos={pos}", f"side={side}")
     if not r0.ok:
@@ -198,10 +202,11 @@ def random_case(draw):
                           start=draw(st.sampled_from([1, 1, 27, 997, 2500]))))  # fmt: skip
     ch["seq"] = seq
     ch["ter"] = True
-    pka = [[i, draw(st.integers(0, 1400)) / 100.0] for i, nm in enumerate(seq) if nm in TIT and draw(st.integers(0, 9)) < 9]
+    pka = [[i, draw(st.integers(0, 14000)) / 1000.0] for i, nm in enumerate(seq) if nm in TIT and draw(st.integers(0, 9)) < 9]
     phs = [draw(st.integers(0, 1400)) / 100.0 for _ in range(3)]
     if pka:
-        phs.append(pka[draw(st.integers(0, len(pka) - 1))][1])
+        one = pka[draw(st.integers(0, len(pka) - 1))][1]
+        phs.append(min(14.0, max(0.0, round(one + draw(st.sampled_from([0.0, 0.002, -0.002, 0.004, -0.004])), 4))))
     ff = draw(st.sampled_from(ffmodel.FFS + ["PARSE", "PARSE"]))
     opts = []
     if ff == "PARSE":  # neutral termini (PARSE only) combined with titration of the terminal residues
